@@ -552,7 +552,67 @@ def capi_cpp_leg(ctx):
     return [rep], problems
 
 
-PROPS["C19"]["legs"] = [capi_cpp_leg]
+def miri_leg(ctx):
+    """C19 thorough: a reduced run of the same FFI / wrapper pairing under Miri (nightly's undefined-behaviour interpreter). The unsafe code reached is the
+    diplomat-generated FFI glue of temporal_capi (raw-pointer slices, Box round trips, DiplomatWrite buffers) and the crate's NonZero::new_unchecked calls."""
+    import json, os, re, subprocess
+    if ctx["tier"] != "thorough":
+        return [], []
+    env = dict(ctx["env"])
+    env["CARGO_TARGET_DIR"] = os.path.join(ctx["build"], "target-miri")
+    env["MIRIFLAGS"] = "-Zmiri-disable-isolation"
+    n = ctx["ncpu"]
+    harness = os.path.join(ctx["verif"], "harness")
+
+    def cmd(i):
+        out = os.path.join(ctx["outdir"], f"C19.miri.{i}.json")
+        if os.path.exists(out):
+            os.remove(out)
+        return out, ["cargo", "+nightly", "miri", "run", "--offline", "--quiet", "--bin", "tvh", "--", "run", "C19", "--tier", "quick", "--seed", str(ctx["seed"]),
+                     "--shard", f"{i}/{n}", "--scale", "0.003", "--out", out, "--build", "miri"]
+
+    reports, problems = [], []
+
+    def finish(i, out, rc, err):
+        err = "\n".join(l for l in err.splitlines() if not l.startswith("ICU4X data error"))
+        ub = re.search(r"error: (Undefined Behavior|memory leaked|deadlock|the evaluated program leaked memory)[^\n]*", err)
+        if ub:
+            frame = re.search(r"-->\s+(/repo/[^\s:]+:\d+|[^\s]*temporal_capi[^\s:]*:\d+|[^\s]*diplomat[^\s:]*:\d+)", err)
+            shape = (ub.group(0)[:120] + " @ " + (frame.group(1) if frame else "?"))
+            reports.append({"evaluations": 0, "distinct_nontrivial": 0, "counters": {"miri/reports": 1}, "samples": [], "shard": i, "nshards": n, "seed": ctx["seed"], "tier": "quick", "build": "miri",
+                            "harness_errors": [], "violations": [{"sig": f"C19/C19.ffi_memory/Miri/{re.sub(r'[0-9]+', 'N', shape)}", "count": 1,
+                                                                   "witnesses": [{"clause": "C19.ffi_memory", "op": "Miri", "shape": shape, "case": {"shard": i, "nshards": n, "scale": "0.003"},
+                                                                                  "got": err[-1800:], "expected": "no report", "case_idx": 0}]}]})
+        elif rc != 0 or not os.path.exists(out):
+            problems.append({"shard": i, "build": "miri", "kind": f"exit {rc}", "stderr": err[-1200:]})
+        else:
+            r = json.load(open(out))
+            r["build"] = "miri"
+            r.setdefault("counters", {})["miri/cases"] = r.get("cases", 0)
+            reports.append(r)
+
+    # the first shard also builds; the others start once the build is there
+    out0, c0 = cmd(0)
+    p0 = subprocess.run(c0, cwd=harness, env=env, capture_output=True, text=True, timeout=3600)
+    finish(0, out0, p0.returncode, p0.stderr)
+    if problems and "could not compile" in problems[-1].get("stderr", ""):
+        return reports, problems
+    procs = []
+    for i in range(1, n):
+        out, c = cmd(i)
+        procs.append((i, out, subprocess.Popen(c, cwd=harness, env=env, stdout=subprocess.DEVNULL, stderr=subprocess.PIPE, text=True)))
+    for i, out, pr in procs:
+        try:
+            _, err = pr.communicate(timeout=3600)
+        except subprocess.TimeoutExpired:
+            pr.kill()
+            problems.append({"shard": i, "build": "miri", "kind": "watchdog"})
+            continue
+        finish(i, out, pr.returncode, err or "")
+    return reports, problems
+
+
+PROPS["C19"]["legs"] = [capi_cpp_leg, miri_leg]
 PROPS["C19"]["rule"] += ("; thorough tier additionally drives 400 000 generated cases (PlainDate, PlainTime, PlainDateTime, Duration, Instant, PlainYearMonth / PlainMonthDay; constructors, "
                          "accessors, add / subtract / until, round, to_ixdtf_string) through the shipped C++ bindings and the extern \"C\" ABI in a clang AddressSanitizer + "
                          "UndefinedBehaviorSanitizer build (leak detection on) and compares every output line with the same case through the Rust core")
@@ -615,10 +675,12 @@ for _p, _t in {
     "C14": " Real zones are additionally driven through the library's own file-system provider.",
     "C15": " Identifier answers are re-checked after queries for non-IANA file names on the same provider.",
     "C18": " Rounded since() and month-days from field records in leap and common years are judged.",
-    "C19": " Receivers cover the neighbourhood of every zone's transitions, including days whose midnight is skipped from before it.",
+    "C19": " Receivers cover the neighbourhood of every zone's transitions, including days whose midnight is skipped from before it, and the two ends of the range. The thorough tier adds a reduced run under Miri (undefined behaviour / leaks in the FFI glue).",
 }.items():
     PROPS[_p]["manifest"]["text"] += _t
 
 # C16's thorough tier has cases that legitimately take minutes (one case = one astronomical calendar scanned over 3000 ISO years: 5 min measured):
 # four times the default budgets there
 PROPS["C16"]["triage_budgets"] = (4800, 3600)
+PROPS["C19"]["rule"] += ("; thorough tier also runs 16 reduced shards of the same pairing (about 350 cases, all ten scenarios) under Miri: an Undefined Behavior / leak report is a "
+                         "C19.ffi_memory violation keyed by the report's first line and first frame in the repository, any other Miri failure is inconclusive")
